@@ -43,6 +43,10 @@ func TestVerifC05Race(t *testing.T) {
 	r := ev.Begin("C05", "race")
 	defer r.End(t)
 	r.Rule = "free-running -race pass: the real multicast() and schedule() of one Advertiser (min 3s, max 4s, so both draw random numbers) run as plain goroutines under a virtual clock while 200 unicast requests arrive at the instants the generator draws (multiples of 1s) and in between, for 3 seeds; the race detector's reports gate the verdict; non-trivial = every run"
+	if !c05MulticastSig() {
+		r.Capped("Advertiser.multicast no longer has the signature (context.Context, chan<- netip.Addr): part skipped")
+		return
+	}
 	for seed := 0; seed < 3; seed++ {
 		synctest.Test(t, func(t *testing.T) {
 			time.Sleep(time.Duration(seed) * 1234567 * time.Nanosecond)
@@ -55,7 +59,7 @@ func TestVerifC05Race(t *testing.T) {
 			var wg sync.WaitGroup
 			wg.Add(2)
 			go func() { defer wg.Done(); _ = a.schedule(ctx, conn, ipC) }()
-			go func() { defer wg.Done(); a.multicast(ctx, ipC) }()
+			go func() { defer wg.Done(); c05Multicast(a, ctx, ipC) }()
 			for i := 0; i < 200; i++ {
 				ipC <- netip.MustParseAddr("fe80::5")
 				if i%2 == 0 {
